@@ -57,7 +57,7 @@ def run(tier, seed, replay):
             c = fl["case"]
             rec = {"clause": cl, "src_tc": c["src_tc"], "target": c["target"], "force": c["force"], "fmt": c["fmt"], "case": c}
             if line - 1 < len(case_list):
-                rec["replay_case"] = case_list[line - 1]
+                rec["replay_case"] = dict(case_list[line - 1], orig_n=case_list[line - 1].get("orig_n", line - 1))
             run.failure(rec)
     run.traces += s["cases"]
     run.evaluations += s["cases"]
@@ -78,7 +78,7 @@ def run(tier, seed, replay):
                 continue
             rec = {"clause": cl, "src_tc": c["src_tc"], "target": c["target"], "force": c["force"], "fmt": c["fmt"], "case": c}
             if c["id"] < len(case_list):
-                rec["replay_case"] = case_list[c["id"]]
+                rec["replay_case"] = dict(case_list[c["id"]], orig_n=case_list[c["id"]].get("orig_n", c["id"]))
             run.failure(rec)
     run.traces += sc["cases"]
     run.evaluations += sc["cases"]
